@@ -283,7 +283,7 @@ class C03(RenderProp):
     id = "C03"
     n_quick = 1500
     n_thorough = 25000
-    required_theorems = ["C03_freeze_captures", "C03_freeze_preserves", "C03_call_scope_and_frame", "C03_block_scope_and_frame", "C03_args_positional", "C03_compiler_state_per_template", "C03_call_attributes_frame"]
+    required_theorems = ["C03_freeze_captures", "C03_freeze_preserves", "C03_call_scope_and_frame", "C03_block_scope_and_frame", "C03_args_positional", "C03_compiler_state_per_template", "C03_call_attributes_frame", "C03_helper_bodies"]
     rule = ("random programs of 1-3 (thorough: 1-4) mixin definitions (0-2 parameters; bodies printing parameters, page data and an invisible caller local; `block` placed 0, 1 or "
             "2 times, bare / inside a tag / inside a conditional; recursive mixins on a decreasing counter placing `block` before or after the self-call and forwarding or replacing "
             "it; calls of earlier mixins with the block forwarded once or twice) and calls from the main template (missing arguments, block bodies reading caller locals and loop "
